@@ -73,7 +73,16 @@ pub struct DataDir {
     pub shape: Option<String>,
 }
 
+#[derive(Clone, Debug)]
+pub struct ExpandDir {
+    pub file: String,
+    pub mac: String,
+    pub key: String,
+    pub alias: String,
+}
+
 pub enum Segment {
+    Expand(ExpandDir),
     Data(DataDir),
     Text(String),
     Item(ItemDir),
@@ -262,6 +271,19 @@ pub fn parse_template(tpl: &str) -> Unit {
             "constfold-obligations" => {
                 unit.segments.push(Segment::Text(std::mem::take(&mut text)));
                 unit.segments.push(Segment::ConstFoldHere);
+            }
+            "expand" => {
+                // //@expand <file> :: <macro_name> :: <substring identifying the invocation> as=<alias>
+                unit.segments.push(Segment::Text(std::mem::take(&mut text)));
+                let (body, alias) = match rest.rsplit_once(" as=") {
+                    Some((b, a)) => (b.trim().to_string(), a.trim().to_string()),
+                    None => die("expand needs as=<alias>"),
+                };
+                let parts: Vec<String> = body.split(" :: ").map(|x| x.trim().to_string()).collect();
+                if parts.len() != 3 {
+                    die("expand needs <file> :: <macro> :: <key> as=<alias>");
+                }
+                unit.segments.push(Segment::Expand(ExpandDir { file: parts[0].clone(), mac: parts[1].clone(), key: parts[2].clone(), alias }));
             }
             "data" => {
                 unit.segments.push(Segment::Text(std::mem::take(&mut text)));
